@@ -183,6 +183,16 @@ def fact_outer_append_empty(old, new):
             tsize(L2, n + 1) == tsize(L, n)]
 
 
+def fact_outer_append(old, new, bucket):
+    """append of a whole bucket (a list of ints) at the end of the table"""
+    f = z3.Int("f!uf")
+    C, L, n = old.comps[0], old.comps[1], old.ln
+    C2, L2 = new.comps[0], new.comps[1]
+    return [z3.ForAll([f], tcount(C2, L2, n + 1, f) == tcount(C, L, n, f) + lcnt(bucket.comps[0], 0, bucket.ln, f),
+                      patterns=[tcount(C2, L2, n + 1, f), tcount(C, L, n, f)]),
+            tsize(L2, n + 1) == tsize(L, n) + bucket.ln]
+
+
 # ---- native validation -----------------------------------------------------------------------------------------------
 def _tc(T, n, f):
     return sum(b.count(f) for b in T[:max(n, 0)])
@@ -190,6 +200,33 @@ def _tc(T, n, f):
 
 def _ts(T, n):
     return sum(len(b) for b in T[:max(n, 0)])
+
+
+nzlead = z3.Function("nzlead", A, I, I)             # number of leading non-zero entries of a[0:n]
+
+
+def nz_axioms():
+    a = z3.Const("a!nz", A)
+    n, i = z3.Ints("n!nz i!nz")
+    return [z3.ForAll([a, n], z3.Implies(n >= 0, z3.And(0 <= nzlead(a, n), nzlead(a, n) <= n)), patterns=[nzlead(a, n)]),
+            z3.ForAll([a, n, i], z3.Implies(z3.And(0 <= i, i < nzlead(a, n)), a[i] != 0),
+                      patterns=[z3.MultiPattern(nzlead(a, n), a[i])]),
+            z3.ForAll([a, n], z3.Implies(z3.And(n >= 0, nzlead(a, n) < n), a[nzlead(a, n)] == 0), patterns=[nzlead(a, n)])]
+
+
+def fact_filter_nonzero(a, n, f, m):
+    """[x for x in a[0:n] if x] == f[0:m]: order kept, zeros dropped.  Stated as what the proofs use: sizes, no zero in
+    the result, occurrence counts of every non-zero value kept, and the padded case (all zeros at the end) where the
+    result is exactly the non-zero prefix"""
+    i, x = z3.Ints("i!fz x!fz")
+    lead = nzlead(a, n)
+    padded = z3.ForAll([i], z3.Implies(z3.And(lead <= i, i < n), a[i] == 0))
+    return [z3.And(0 <= m, m <= n),
+            z3.ForAll([i], z3.Implies(z3.And(0 <= i, i < m), f[i] != 0)),
+            z3.ForAll([x], z3.Implies(x != 0, lcnt(f, 0, m, x) == lcnt(a, 0, n, x)), patterns=[lcnt(f, 0, m, x)]),
+            lcnt(f, 0, m, 0) == 0,
+            m == n - lcnt(a, 0, n, 0),
+            z3.Implies(padded, z3.And(m == lead, z3.ForAll([i], z3.Implies(z3.And(0 <= i, i < m), f[i] == a[i]))))]
 
 
 def validate_native(seed=0, rounds=400):
@@ -205,6 +242,15 @@ def validate_native(seed=0, rounds=400):
 
     for _ in range(rounds):
         a = [rnd.randrange(0, 4) for _ in range(rnd.randrange(0, 6))]
+        if rnd.random() < 0.5:
+            a = sorted(a, key=lambda v: v == 0)           # padded shape: zeros at the end
+        fz = [v for v in a if v]
+        lead = next((k for k, v in enumerate(a) if v == 0), len(a))
+        chk("nz_lead_range", 0 <= lead <= len(a) and all(a[k] != 0 for k in range(lead)) and (lead == len(a) or a[lead] == 0), a)
+        chk("nz_sizes", 0 <= len(fz) <= len(a) and all(v != 0 for v in fz) and len(fz) == len(a) - a.count(0), a)
+        chk("nz_counts", all(fz.count(v) == a.count(v) for v in range(1, 5)) and fz.count(0) == 0, a)
+        if all(v == 0 for v in a[lead:]):
+            chk("nz_padded", fz == a[:lead], a)
         b2 = [rnd.randrange(0, 4) for _ in range(rnd.randrange(0, 4))]
         x = rnd.randrange(0, 4)
         for f in range(-1, 5):
@@ -256,4 +302,9 @@ def validate_native(seed=0, rounds=400):
         for f in range(-1, 5):
             chk("outer_append_empty", _tc(T5, n + 1, f) == _tc(T, n, f), (T, f))
         chk("outer_append_empty_size", _ts(T5, n + 1) == _ts(T, n), (T,))
+        bk = [rnd.randrange(0, 4) for _ in range(rnd.randrange(0, 4))]
+        T6 = [list(b_) for b_ in T] + [bk]
+        for f in range(-1, 5):
+            chk("outer_append", _tc(T6, n + 1, f) == _tc(T, n, f) + bk.count(f), (T, bk, f))
+        chk("outer_append_size", _ts(T6, n + 1) == _ts(T, n) + len(bk), (T, bk))
     return cases, failures
